@@ -16,8 +16,8 @@ RULE = ('one run = one seeded history on one engine over a LIFO stack of frames,
         'in a bound variable / compiled inline goal) at any point, so that facts are asserted with variables bound before, after, through chains and '
         'inside structures, and are used while other uses of the same fact are suspended. A case = one answer (or end) of a use compared with the '
         'copy-semantics model over the pattern AND every pool variable; non-trivial = the fact answered contains a variable, or was asserted while '
-        'one of its variables was bound, or another use is suspended; distinct = hash of (stored fact up to renaming, pattern shape, #suspended uses, '
-        'bound-at-assert, bindings changed since assert)')
+        'one of its variables was bound, or another use is suspended; distinct = hash of (stored fact up to renaming, pattern up to renaming, #suspended uses, '
+        'bound-at-assert, bindings changed since assert, answer number)')
 ASSUMPTIONS = [
     'a use starts at its first next(); the model takes its view of the fact list then',
     'frames end in LIFO order (the engine\'s bindings nest; un-nesting them is outside every property)',
@@ -224,7 +224,7 @@ def execute(plan):
         if changed:
             log.count('use_after_binding_changed')
         if nonground or mt.get('bound') or others:
-            log.key((TM.canon(rec[1]), tuple(p[0] for p in fr['pat']), others, bool(mt.get('bound')), changed))
+            log.key((TM.canon(rec[1]), TM.canon(fr['pat']), others, bool(mt.get('bound')), changed, fr['answers']))
         ids = pool.ids()
         got = TM.canon([TM.observe(a, ids) for a in fr['pargs']] + [TM.observe(v, ids) for v in pool.vars])
         exp = TM.canon([TM.resolve(p, s) for p in fr['pat']] + [TM.resolve(('v', i), s) for i in range(len(pool))])
